@@ -192,6 +192,12 @@ package xmpp
 //@     assert[C07] !autoReply ==> !(iqOk && (typ == "get" || typ == "set") && !rw.wroteResp)
 //@   ensures[C07] handlerCalls <= 1
 //@   ensures[C07] autoReply ==> handlerCalls == 1
+// C06: a reply whose requester has given up (its context ended before the
+// hand-off) is a response nobody waits for and goes to the handler
+//@   ghost chosen int = -2
+//@   callsite select#1
+//@     after: chosen = ret0
+//@   ensures[C06] chosen == 1 && err == nil ==> handlerCalls == 1
 //@   loop 1
 //@     invariant[C08] !compared && (forall j int :: 0 <= j && j <= rangeindex ==> !unq(start.Attr[j], "from"))
 
